@@ -299,6 +299,25 @@ func planFaults(ti int, data []byte) []Fault {
 				Bytes: hex.EncodeToString(putVarint(b.Off)), Block: fd.Block, Feat: feat})
 		}
 	}
+	// a block that is valid but holds no record at all (restart count 0, or one restart pointing at the end of the
+	// empty record area): two fields edited together
+	ne, tot := map[byte]int{}, map[byte]int{}
+	for _, b := range f.Blocks {
+		tot[b.Type]++
+	}
+	for bi, b := range f.Blocks {
+		ne[b.Type]++
+		if ne[b.Type] > 3 && ne[b.Type] < tot[b.Type]-1 { // the first three and the last two blocks of every section
+			continue
+		}
+		for _, rc := range []int{0, 1} {
+			out = append(out, Fault{Table: ti, Field: "block.len+restart_count", Class: fmt.Sprintf("emptied_rc%d", rc), Kind: "empty", Block: bi, Size: rc, Feat: feat})
+			if bi == len(f.Blocks)-1 {
+				// ... and the footer moved up right behind it: an empty block that ends its section (and the file)
+				out = append(out, Fault{Table: ti, Field: "block.len+restart_count", Class: fmt.Sprintf("emptied_rc%d_then_footer", rc), Kind: "empty", Block: bi, Size: rc, Len: 1, Feat: feat})
+			}
+		}
+	}
 	// a log block whose deflate stream inflates to far more than its declared length ("bomb")
 	nb := 0
 	for bi, b := range f.Blocks {
@@ -335,6 +354,41 @@ func planFaults(ti int, data []byte) []Fault {
 func apply(data []byte, ft Fault) []byte {
 	if ft.Kind == "truncate" {
 		return append([]byte{}, data[:ft.Size]...)
+	}
+	if ft.Kind == "empty" {
+		f, err := fmtdec.Parse(data)
+		if err != nil || ft.Block >= len(f.Blocks) {
+			return data
+		}
+		b := f.Blocks[ft.Block]
+		hoff := 0
+		if b.Off == 0 {
+			hoff = f.HeaderSize
+		}
+		start := int(b.Off)
+		body := []byte{}
+		if ft.Size == 1 {
+			body = append(body, byte((hoff+4)>>16), byte((hoff+4)>>8), byte(hoff+4))
+		}
+		body = append(body, 0, byte(ft.Size))
+		blen := hoff + 4 + len(body)
+		out := append([]byte{}, data...)
+		out[start+hoff+1], out[start+hoff+2], out[start+hoff+3] = byte(blen>>16), byte(blen>>8), byte(blen)
+		if b.Type == 'g' {
+			var z bytes.Buffer
+			zw, _ := zlib.NewWriterLevel(&z, 9)
+			zw.Write(body)
+			zw.Close()
+			body = z.Bytes()
+		}
+		if start+hoff+4+len(body) > len(out) {
+			return data
+		}
+		copy(out[start+hoff+4:], body)
+		if ft.Len == 1 {
+			out = append(out[:start+hoff+4+len(body)], data[f.FooterStart:]...)
+		}
+		return out
 	}
 	if ft.Kind == "bomb" {
 		f, err := fmtdec.Parse(data)
@@ -528,6 +582,46 @@ func exercise(data []byte, keys []string, oids []string) (outcome string) {
 				return step + ": " + s
 			}
 		}
+	}
+	// the same bytes read through a merged view (what a stack holding this table does)
+	step = "NewMerged"
+	mg, err := reftable.NewMerged([]reftable.Table{rd}, rd.HashID())
+	if err != nil {
+		return ""
+	}
+	step = "Merged.SeekRef(\"\")+scan"
+	if it, err := mg.SeekRef(""); err == nil {
+		if s := scanR(it); s != "" {
+			return step + ": " + s
+		}
+	}
+	step = "Merged.SeekLog(\"\")+scan"
+	if it, err := mg.SeekLog("", math.MaxUint64); err == nil {
+		if s := scanL(it); s != "" {
+			return step + ": " + s
+		}
+	}
+	for i, k := range keys {
+		if i >= 4 {
+			break
+		}
+		step = "Merged.SeekRef(key)+scan"
+		if it, err := mg.SeekRef(k); err == nil {
+			if s := scanR(it); s != "" {
+				return step + ": " + s
+			}
+		}
+	}
+	for _, o := range oids {
+		step = "Merged.RefsFor+scan"
+		if it, err := mg.RefsFor(unhex(o)); err == nil {
+			if s := scanR(it); s != "" {
+				return step + ": " + s
+			}
+		}
+	}
+	if s := over(); s != "" {
+		return s
 	}
 	return ""
 }
